@@ -90,7 +90,23 @@ pub fn answers_digest(tok: &Kitoken, texts: &[String]) -> u64 {
 }
 
 /// `kvh child-c19 conv <path>` | `race <path> <threads> <seed> <n>` | `digest <path> <seed> <n>`.
+struct QuietLogger;
+impl log::Log for QuietLogger {
+    fn enabled(&self, _: &log::Metadata) -> bool {
+        true
+    }
+    fn log(&self, _: &log::Record) {}
+    fn flush(&self) {}
+}
+static QUIET: QuietLogger = QuietLogger;
+
 pub fn child_main(args: &[String]) {
+    // process-wide state that is not the library's own: a logger with every level enabled. What the library
+    // computes must not depend on whether its diagnostics are listened to.
+    if std::env::var("KVH_LOG").is_ok() {
+        let _ = log::set_logger(&QUIET);
+        log::set_max_level(log::LevelFilter::Trace);
+    }
     let mode = args[0].as_str();
     let path = &args[1];
     let def = match Definition::from_file(path) {
@@ -151,7 +167,18 @@ pub fn child_main(args: &[String]) {
 }
 
 fn child(exe: &std::path::Path, args: &[String]) -> String {
-    match std::process::Command::new(exe).arg("child-c19").args(args).stderr(std::process::Stdio::null()).output() {
+    child_env(exe, args, false)
+}
+
+fn child_env(exe: &std::path::Path, args: &[String], logging: bool) -> String {
+    let mut cmd = std::process::Command::new(exe);
+    cmd.arg("child-c19").args(args).stderr(std::process::Stdio::null());
+    if logging {
+        cmd.env("KVH_LOG", "1");
+    } else {
+        cmd.env_remove("KVH_LOG");
+    }
+    match cmd.output() {
         Ok(o) if o.status.success() => String::from_utf8_lossy(&o.stdout).trim().to_string(),
         Ok(o) => format!("CRASH {:?}", o.status.code()),
         Err(e) => format!("SPAWN {}", e),
@@ -458,7 +485,8 @@ pub fn gen(rng: &mut Rng, thorough: bool, out: &mut Sink) {
             format!("{:016x} {} {}", fnv(&first), first.len(), export)
         };
         let nproc = if thorough { 4 } else { 2 };
-        let outs: Vec<String> = (0..nproc).map(|_| child(&exe, &["conv".into(), p.to_string_lossy().to_string()])).collect();
+        // the last of the fresh processes runs with a logger that listens to every level
+        let outs: Vec<String> = (0..nproc).map(|k| child_env(&exe, &["conv".into(), p.to_string_lossy().to_string()], k + 1 == nproc)).collect();
         let _ = std::fs::remove_file(&p);
         let bad = outs.iter().find(|o| **o != own);
         let verdict = if again_differs {
